@@ -511,7 +511,102 @@ def run_snap(program):
     trace['stale'] = trace['after'] != trace['fresh']
     return trace
 
-FAMILIES = {'decl': run_decl, 'reg': run_reg, 'cmp': run_cmp, 'call': run_call, 'odd': run_odd, 'lb': run_lb, 'snap': run_snap}
+
+# ---------------------------------------------------------------------------
+# family 'kw': every C-implemented callable called with its documented parameter names, each split of positional / keyword
+# ---------------------------------------------------------------------------
+
+KW_TARGETS = ['AdapterRegistry.lookup', 'AdapterRegistry.lookup1', 'AdapterRegistry.queryAdapter', 'AdapterRegistry.adapter_hook',
+              'AdapterRegistry.lookupAll', 'AdapterRegistry.subscriptions',
+              'VerifyingAdapterRegistry.lookup', 'VerifyingAdapterRegistry.lookup1', 'VerifyingAdapterRegistry.queryAdapter',
+              'VerifyingAdapterRegistry.adapter_hook', 'VerifyingAdapterRegistry.lookupAll', 'VerifyingAdapterRegistry.subscriptions',
+              'Interface.__call__', 'Interface.__adapt__', 'Specification.isOrExtends', 'Specification.providedBy',
+              'Specification.implementedBy', 'providedBy', 'implementedBy', 'getObjectSpecification', 'lookup.changed']
+KW_POSITIONAL_ONLY_IN_C = (13, 14, 15, 16, 17, 18, 19, 20)       # METH_O in the accelerator
+KW_MODES = ['documented names', 'one keyword misspelled', 'first argument given twice']
+
+
+def run_kw(program):
+    """program = [target, npos, mode]: the first `npos` arguments positionally, the rest by their documented names."""
+    from zope.interface import Interface, implementer, implementedBy, providedBy
+    from zope.interface.adapter import AdapterRegistry, VerifyingAdapterRegistry
+    from zope.interface.declarations import getObjectSpecification
+    from zope.interface.interface import InterfaceClass
+    t, npos, mode = program
+    IR = InterfaceClass('IR', (Interface,), __module__='kwfam')
+    IP = InterfaceClass('IP', (Interface,), __module__='kwfam')
+
+    @implementer(IR)
+    class Ob:
+        pass
+
+    class Fac:
+        def __init__(self, o):
+            self.o = o
+
+        def __repr__(self):
+            return 'Fac(%s)' % type(self.o).__name__
+    ob = Ob()
+    reg = None
+    if t < 12:
+        reg = (AdapterRegistry if t < 6 else VerifyingAdapterRegistry)()
+        reg.register([IR], IP, 'n', Fac)
+        reg.subscribe([IR], IP, Fac)
+        k = t % 6
+        fn = getattr(reg, ('lookup', 'lookup1', 'queryAdapter', 'adapter_hook', 'lookupAll', 'subscriptions')[k])
+        args = [[('required', (IR,)), ('provided', IP), ('name', 'n'), ('default', 'D')],
+                [('required', IR), ('provided', IP), ('name', 'n'), ('default', 'D')],
+                [('object', ob), ('provided', IP), ('name', 'n'), ('default', 'D')],
+                [('provided', IP), ('object', ob), ('name', 'n'), ('default', 'D')],
+                [('required', (IR,)), ('provided', IP)],
+                [('required', (IR,)), ('provided', IP)]][k]
+    elif t == 12:
+        fn, args = IR.__call__, [('obj', ob), ('alternate', 'ALT')]
+    elif t == 13:
+        fn, args = IP.__adapt__, [('obj', ob)]
+    elif t == 14:
+        fn, args = IR.isOrExtends, [('interface', Interface)]
+    elif t == 15:
+        fn, args = IR.providedBy, [('ob', ob)]
+    elif t == 16:
+        fn, args = IR.implementedBy, [('cls', Ob)]
+    elif t == 17:
+        fn, args = providedBy, [('ob', ob)]
+    elif t == 18:
+        fn, args = implementedBy, [('cls', Ob)]
+    elif t == 19:
+        fn, args = getObjectSpecification, [('ob', ob)]
+    else:
+        reg = AdapterRegistry()
+        fn, args = reg._v_lookup.changed, [('originally_changed', None)]
+    if npos > len(args):
+        return None
+    pos = [v for (_n, v) in args[:npos]]
+    kw = {n: v for (n, v) in args[npos:]}
+    if mode == 1:
+        if not kw:
+            return None
+        first = sorted(kw)[0]
+        kw[first + '_x'] = kw.pop(first)
+    elif mode == 2:
+        if not npos:
+            return None
+        kw[args[0][0]] = args[0][1]
+    try:
+        r = fn(*pos, **kw)
+    except Exception as e:   # noqa
+        return [_exc(e), None]
+    if r is ob:
+        r = 'the-object'
+    elif hasattr(r, '__sro__') or hasattr(r, '__iro__'):
+        r = [getattr(x, '__name__', '?') for x in r.__sro__][:6]
+    elif isinstance(r, (list, tuple)):
+        r = [repr(x) if not isinstance(x, type) else x.__name__ for x in r]
+    elif isinstance(r, type):
+        r = r.__name__
+    return ['ok', repr(r) if not isinstance(r, list) else r]
+
+FAMILIES = {'decl': run_decl, 'reg': run_reg, 'cmp': run_cmp, 'call': run_call, 'odd': run_odd, 'lb': run_lb, 'snap': run_snap, 'kw': run_kw}
 
 
 def execute(family, program):
